@@ -356,11 +356,12 @@ Fixpoint obs_eqb (a b : obs) : bool :=
    it was drained: afterwards no goroutine is left that could deliver anything *)
 Definition ends_shut_down (c : cfg) (kn : list N) (ops : list op) : bool := stopped (run c kn ops).
 
-(* "success only when the blob is THEN in the local cache": results are delivered while the
-   event loop applies an event, so a success for call w (blob h) is justified only if after
-   some applied event following w's request the blob is in the cache.  Asynchronous cache
-   eviction (op Evict, not an action of the scheduler) can always race with a success, so
-   schedules that evict h are exempt from this clause. *)
+(* "success only when the blob is THEN in the local cache": a success for call w (blob h) is
+   justified only if the blob is in the cache when the request is made (its CreateTorrent
+   step), or after some event applied since.  (A RemoveTorrent applied between the request and
+   its newTorrentEvent overlaps the call: "succeeded, then removed" is a valid linearisation.)
+   Asynchronous cache eviction (op Evict, not an action of the scheduler) can always race with
+   a success, so schedules that evict h are exempt from this clause. *)
 Definition is_apply (o : op) : bool :=
   match o with ApNew _ | ApComplete _ | ApRemove _ | ApTick | ApShutdown => true | _ => false end.
 Fixpoint cached_after_some_apply (c : cfg) (w h : N) (s : st) (armed : bool) (ops : list op) : bool :=
@@ -368,8 +369,9 @@ Fixpoint cached_after_some_apply (c : cfg) (w h : N) (s : st) (armed : bool) (op
   | [] => false
   | o :: t =>
       let s' := step c s o in
-      let armed' := armed || match o with Download w' _ => N.eqb w w' | _ => false end in
-      (armed' && is_apply o && memb h (cache s')) || cached_after_some_apply c w h s' armed' t
+      let mine := match o with Download w' _ => N.eqb w w' | _ => false end in
+      let armed' := armed || mine in
+      (armed' && (is_apply o || mine) && memb h (cache s')) || cached_after_some_apply c w h s' armed' t
   end.
 Definition evicted_in (h : N) (ops : list op) : bool :=
   existsb (fun o => match o with Evict h' => N.eqb h h' | _ => false end) ops.
@@ -378,8 +380,8 @@ Definition success_justified (c : cfg) (kn : list N) (ops : list op) (w : N) : b
   evicted_in h ops || cached_after_some_apply c w h (init kn) false ops.
 
 (* the property on one observed schedule: every call returned, and success is reported
-   only for a blob that was in the cache at some point since the call and is in the cache
-   after some event applied since the call *)
+   only for a blob that was in the cache at some point since the call: when the request was
+   made, or after some event applied since *)
 Definition C17_check (c : cfg) (kn : list N) (ops : list op) (o : obs) : bool :=
   if wf ops && ends_shut_down c kn ops then
     forallb (fun p => match snd p with
